@@ -115,6 +115,8 @@ def gen_config(rng, i, longf):
     elif k == 3:
         s.cloud_model = Simulation.PressureMapCloud(month=int(rng.integers(1, 13)), version="0")
     s.target.source_obst = f()
+    s.target.source_RA, s.target.source_DEC = float(np.radians(rng.choice([0.0, 22.0, 310.5]))), float(np.radians(rng.choice([0.0, -45.0, 63.25])))
+    c.detector.sun_moon.moon_alt_cut = float(np.radians(rng.choice([0.0, -20.0, 15.0])))
     return c
 
 
@@ -240,6 +242,23 @@ def judge_table(ctx, tab, cfg, path, label, rng):
             okv = isinstance(r, str) and r == str(v)
         if not okv:
             ctx.violation("complete", f"{label}: the file's header says {key!r} = {r!r} but the configuration that produced the table has {v!r}", dict(wit, keyword=key))
+            continue
+        # unit-bearing fields are stored as text ("30.0 deg"): parse the header text with astropy and
+        # compare with the configuration's own canonical value (independent of the serialisers)
+        leaf = key.split(" ")[-1]
+        canon = "rad" if leaf in ANGLE_FIELDS else {"altitude": "km", "telescope_effective_area": "m2", "low_frequency": "MHz", "high_frequency": "MHz", "gain": "dB"}.get(leaf)
+        if canon and isinstance(r, str):
+            try:
+                import astropy.units as u_
+
+                attr = get_attr_path(cfg, key.split(" ")[1:])
+                if isinstance(attr, (int, float)) and not isinstance(attr, bool):
+                    val_ = u_.Quantity(r).to(u_.Unit(canon)).value
+                    ctx.count("complete-units")
+                    if not (val_ == attr or abs(val_ - attr) <= 4 * 2.0**-52 * abs(attr)):
+                        ctx.violation("complete", f"{label}: the header says {key!r} = {r!r}, i.e. {val_!r} {canon}; the run used {attr!r} {canon}", dict(wit, keyword=key))
+            except Exception as e:
+                ctx.violation("complete", f"{label}: header text {key!r} = {r!r} is not a quantity convertible to {canon} ({type(e).__name__})", dict(wit, keyword=key))
     # ---- reconstruction, on the fields the reader actually fills (observed: the keyword arguments
     #      it hands to NssConfig, captured by wrapping the name in the config module)
     import nuspacesim.config as cm
